@@ -79,6 +79,14 @@ def gen_tree(rng, big=False):
                     spec.append((p, "l", rng.choice(["nowhere", "../" + rng.choice(POOL), "..", "ROOT/out"])))
     if rng.random() < 0.2:
         spec.append(("lin", "l", "in"))        # the input directory reachable through a symlink
+    if rng.random() < 0.5:
+        # F34's situation: a link OUTSIDE every input directory that points at an existing file INSIDE one; a generated
+        # destination spelled '../out/lk' resolves inside (Path.resolve() follows the link) while rename(2) would
+        # replace the link itself
+        inner = [p for p, k, _ in spec if k == "f" and any(p.startswith(d + "/") for d in inputs)]
+        if inner:
+            tgt = rng.choice(inner)
+            spec.append(("out/lk", "l", rng.choice(["../" + tgt, "ROOT/" + tgt])))
     return spec, inputs
 
 
@@ -115,7 +123,7 @@ def link_leads_to_dir(spec, path, hops=6):
     return False
 
 
-def gen_text(rng, mode, rel, fresh):
+def gen_text(rng, mode, rel, fresh, d="in"):
     """What the template rendered for the file: ('text', t) | ('abs', t) | ('raise', cls)."""
     r = rng.random()
     if r < 0.03:
@@ -144,6 +152,10 @@ def gen_text(rng, mode, rel, fresh):
         # a directory that does not exist yet, left again with "..": the path only becomes resolvable once mkdir -p has run
         fresh[0] += 1
         return ("text", "m%d/../%s" % (fresh[0], rng.choice(POOL)))
+    if r < 0.80:
+        # the shape of F34: the link 'out/lk' (gen_tree) lies outside the input directory and points at a file inside it
+        return rng.choice([("text", "../" * (d.count("/") + 1) + "out/lk"), ("text", "../" * (d.count("/") + 1) + "out/lk"),
+                           ("abs", "out/lk")])
     if r < 0.90:
         return ("text", rng.choice([
             "../x", "../in2/x", "../out/x", "new/..", "a/../b", "./a", "a//b", "", ".", "..",
@@ -175,7 +187,11 @@ def gen_scenario(rng, mode=None, strategy=None, dry=None, big=False, answers_poo
             spelled = d
             if d == "in" and have_lin and rng.random() < 0.5:
                 spelled = "lin"
-            plan.append({"dir": d, "spelled": spelled, "rel": rel, "r": gen_text(rng, mode, rel, fresh)})
+            plan.append({"dir": d, "spelled": spelled, "rel": rel, "r": gen_text(rng, mode, rel, fresh, d)})
+    if mode == "path" and plan and any(p == "out/lk" for p, _, _ in spec) and rng.random() < 0.15:
+        # F34's situation, made frequent: one file is rendered to the link outside that points inside
+        e = rng.choice(plan)
+        e["r"] = ("text", "../" * (e["dir"].count("/") + 1) + "out/lk")
     if plan and rng.random() < 0.06:
         plan.append(dict(rng.choice(plan)))          # the same file designated twice
     if rng.random() < 0.04:
@@ -375,16 +391,18 @@ def spec_fs(spec):
 
 VARIANTS = {
     "fixed": "fixed",
+    "pre_f34": "pre_f34",        # the code before the repair of F34: no test on the directory of the destination entry
     "prefix": ("{| v_lexists_guard := false; v_recheck_after_mkdir := false; v_backlog_chdir := false; "
-               "v_dry_abs_keys := false; v_component_containment := false |}"),
+               "v_dry_abs_keys := false; v_component_containment := false; v_dest_parent_containment := false |}"),
 }
 
 
 def q_variant(v):
     if isinstance(v, str):
         return VARIANTS.get(v, v)
+    v = tuple(v) + (True,) * (6 - len(v))          # five flags: a variant written before v_dest_parent_containment existed
     return ("{| v_lexists_guard := %s; v_recheck_after_mkdir := %s; v_backlog_chdir := %s; "
-            "v_dry_abs_keys := %s; v_component_containment := %s |}") % tuple(q_bool(x) for x in v)
+            "v_dry_abs_keys := %s; v_component_containment := %s; v_dest_parent_containment := %s |}") % tuple(q_bool(x) for x in v)
 
 
 def q_rendered(r):
